@@ -310,6 +310,7 @@ impl Check for C01 {
 		}
 		if idx == f1_cases() + fx_cases() + f2_cases() + f3_cases() + 1 + F6_EFFECTS.len() as u64 {
 			f7(ctx);
+			f9(ctx);
 			return;
 		}
 		if idx > f1_cases() + fx_cases() + f2_cases() + f3_cases() {
@@ -1122,6 +1123,107 @@ macro_rules! f7_fx {
 		}
 	};
 }
+// ---------------------------------------------------------------------------------------------
+// F9: owners that outlive their handles. A track stays alive on the audio thread after its handle is gone while a child track or
+// (persist_until_sounds_finish) a sound keeps it; whatever is retired inside it afterwards has nobody on the other side of the
+// track's own retirement ring. Every order of {drop parent handle, drop child-1 handle, drop child-2 handle, the sound on child 1
+// finishes, drop the sound's handle} with a callback after each: no callback frees (or allocates) anything.
+fn f9(ctx: &mut Ctx) {
+	use crate::probes::ProbeSoundData;
+	use std::sync::atomic::Ordering;
+	const LET: [&str; 5] = ["drop(parent handle)", "drop(child 1 handle)", "drop(child 2 handle)", "the sound on child 1 finishes", "drop(sound handle)"];
+	fn perms(k: usize, cur: &mut Vec<usize>, used: &mut [bool], out: &mut Vec<Vec<usize>>) {
+		if cur.len() == k {
+			out.push(cur.clone());
+			return;
+		}
+		for i in 0..k {
+			if !used[i] {
+				used[i] = true;
+				cur.push(i);
+				perms(k, cur, used, out);
+				cur.pop();
+				used[i] = false;
+			}
+		}
+	}
+	let mut orders = vec![];
+	perms(5, &mut vec![], &mut [false; 5], &mut orders);
+	for persist in [false, true] {
+		for spatial_parent in [false, true] {
+			for order in &orders {
+				ctx.evals += 1;
+				let detail = || format!("parent {}track{} with two child tracks (a reverb on each), a sound on child 1 and on the parent (a finite 6-frame static sound there); everything adopted; then, one callback of 4 frames after each: {}; then 3 callbacks", if spatial_parent { "spatial " } else { "" }, if persist { " (persist_until_sounds_finish on all three)" } else { "" }, order.iter().map(|l| LET[*l]).collect::<Vec<_>>().join(", "));
+				let r = catch(|| -> Result<(), String> {
+					let lim = |_| "resource limit".to_string();
+					let mut m = rig::manager(SR3, 4, rig::caps(4), MainTrackBuilder::new());
+					let mut buf = vec![0.0f32; 32];
+					let zero = mint::Vector3 { x: 0.0f32, y: 0.0, z: 1.0 };
+					let quat = mint::Quaternion { v: mint::Vector3 { x: 0.0f32, y: 0.0, z: 0.0 }, s: 1.0 };
+					let listener = m.add_listener(zero, quat).map_err(lim)?;
+					enum Par {
+						Plain(kira::track::TrackHandle),
+						Spatial(kira::track::SpatialTrackHandle),
+					}
+					let mut par = if spatial_parent {
+						Par::Spatial(m.add_spatial_sub_track(&listener, zero, SpatialTrackBuilder::new().persist_until_sounds_finish(persist)).map_err(lim)?)
+					} else {
+						Par::Plain(m.add_sub_track(TrackBuilder::new().persist_until_sounds_finish(persist)).map_err(lim)?)
+					};
+					let child = || TrackBuilder::new().persist_until_sounds_finish(persist).with_effect(kira::effect::reverb::ReverbBuilder::new());
+					let (mut c1, c2) = match &mut par {
+						Par::Plain(p) => (p.add_sub_track(child()).map_err(lim)?, p.add_sub_track(child()).map_err(lim)?),
+						Par::Spatial(p) => (p.add_sub_track(child()).map_err(lim)?, p.add_sub_track(child()).map_err(lim)?),
+					};
+					let probe = c1.play(ProbeSoundData::new((0.1, 0.0), (0.1, 0.0))).map_err(|_| "play")?;
+					let finite = rig::static_data(SR3, rig::dc_frames(6, 0.25));
+					let on_parent = match &mut par {
+						Par::Plain(p) => p.play(finite).map_err(|_| "play")?,
+						Par::Spatial(p) => p.play(finite).map_err(|_| "play")?,
+					};
+					let mut par = Some(par);
+					let mut c1 = Some(c1);
+					let mut c2 = Some(c2);
+					let mut probe_h = Some(probe.clone());
+					let mut ok = true;
+					let mut cb = |m: &mut Manager, ctx: &mut Ctx| {
+						let rep = rig::callback(m, &mut buf, 4, 2);
+						if !rep.ok() {
+							rig::report_cb(ctx, &rep, "F9 owners that outlive their handles", &detail);
+							ok = false;
+						}
+					};
+					cb(&mut m, ctx);
+					for l in order {
+						match l {
+							0 => drop(par.take()),
+							1 => drop(c1.take()),
+							2 => drop(c2.take()),
+							3 => probe.finished.store(true, Ordering::SeqCst),
+							_ => drop(probe_h.take()),
+						}
+						cb(&mut m, ctx);
+					}
+					for _ in 0..3 {
+						cb(&mut m, ctx);
+					}
+					drop(on_parent);
+					if ok {
+						ctx.nontrivial_extra += 1;
+					}
+					Ok(())
+				});
+				match r {
+					Ok(Ok(())) => {}
+					Ok(Err(e)) => ctx.fail(format!("setup: {} :: F9", e), detail()),
+					Err(p) => ctx.fail(format!("panic: {} :: F9 owners that outlive their handles", p), detail()),
+				}
+				ctx.state(hash64(&("f9", persist, spatial_parent, order)));
+			}
+		}
+	}
+}
+
 fn f7(ctx: &mut Ctx) {
 	let zero = mint::Vector3 { x: 0.0f32, y: 0.0, z: 1.0 };
 	let quat = mint::Quaternion { v: mint::Vector3 { x: 0.0f32, y: 0.0, z: 0.0 }, s: 1.0 };
